@@ -13,6 +13,7 @@ mod codecs;
 mod sim;
 mod c05_link;
 mod c06_arp;
+mod c13_barrier;
 mod c04_udp;
 mod ndl;
 mod tcb_bench;
@@ -46,6 +47,7 @@ fn parts_for(id: &str) -> Option<Vec<Part>> {
         "C03" => vec![part(tcb_checks::OpenClose, 40_000, 3_000_000)],
         "C12" => vec![part(c12_modcmp::ModCmpLaws, 200_000, 4_000_000), part(tcb_checks::IsnIndependence, 20_000, 1_500_000)],
         "C17" => vec![part(tcb_checks::HostileSegments, 60_000, 4_000_000)],
+        "C13" => vec![part(c13_barrier::BarrierAndStatus, 6_000, 300_000)],
         "C14" => vec![part(codecs::DecodersNoPanic, 1_000_000, 20_000_000), part(ndl::NdlNoPanic, 60_000, 3_000_000)],
         "C19" => vec![part(ndl::NdlRoundTrip, 40_000, 2_000_000)],
         "C15" => vec![part(c15_ipgen::IpGenHistories, 300_000, 6_000_000)],
